@@ -72,4 +72,9 @@ META = {
         "level_text": "Exploration: for every version of generated trees (up to 3000 keys in the thorough tier) height and size equal the reference tree's and meet the AVL bound, rank and key lookups are inverse for all keys and ranks, and storage reads with nothing cached stay within 2h+2 (10h+10 for proofs).",
         "level_note": _TB + "Reads are counted as Get/Has calls on the storage wrapper with cache size 0 and a fresh ImmutableTree per measurement (child pointers are cached in node objects otherwise).",
     },
+    "C18": {
+        "technique": "differential model-based property testing of the storage backends against a sorted-map model",
+        "level_text": "Exploration: generated programs of point ops, batches and bounded forward/reverse iterators over a byte alphabet containing 0x00 and 0xFF run on every backend and on a sorted-map model; all backends must agree with the model after every step, batches must be atomic, ordered and unusable after Write/Close, empty keys and nil values must be rejected, and a prefixed view (also nested, also with 0xFF-terminated prefixes) must never show or modify the pre-seeded keys outside its namespace.",
+        "level_note": "Trusted: Go toolchain, rapid, goleveldb as shipped. Programs never write while an iterator is open and never call Key/Value/Next on an invalid iterator (caller errors of the contract). GoLevelDB durability/fsync is not modelled.",
+    },
 }
